@@ -321,6 +321,7 @@ def run(chk):
     ioloop(chk, repo)
     hunt2_rules(chk, repo)
     hunt3_rules(chk, repo)
+    hunt4_rules(chk, repo)
     from rules import C19 as _C19
 
     _C19.textsize(chk, repo, "C04.length")
@@ -434,6 +435,68 @@ def ioloop(chk, repo, rule="C04.ioloop"):
                 else:
                     chk.ok(rule, x, f"{cls.name}.write_with_length: the read loop is left early only when the known size was written or the declared length is used up ({'; '.join(atoms)[:120]})")
     chk.expect_count(rule, n, 1, "early exits of file read loops in write_with_length implementations")
+
+
+def hunt4_rules(chk, repo):
+    """Rules written after the fourth defect hunt (F251-F253)."""
+    # ---- C04.textenc: a text file is encoded as one stream and its end ends the body -----------------------------------------------------------------
+    tp = repo.cls(PL, "TextIOPayload")
+    nread = 0
+    for mname in ("_read", "_read_and_available_len"):
+        m = tp.methods.get(mname)
+        if m is None:
+            continue
+        for r in [r for r in ast.walk(m.node) if isinstance(r, ast.Return) and r.value is not None]:
+            encs = [c for c in ast.walk(r.value) if isinstance(c, ast.Call) and isinstance(c.func, ast.Attribute) and c.func.attr == "encode"]
+            if not encs:
+                continue
+            nread += 1
+            per_block = [c for c in encs if not norm.raw(c.func.value).startswith("self.")]  # `chunk.encode(...)`: a fresh codec state (and BOM) per block
+            guarded = [c for c in encs if any(isinstance(p_, ast.IfExp) and c in list(ast.walk(p_.body)) and isinstance(p_.orelse, ast.Constant) and p_.orelse.value == b"" for p_ in ast.walk(r.value))]
+            if not per_block and len(guarded) == len(encs):
+                chk.ok("C04.textenc", r, f"TextIOPayload.{mname}(): blocks go through the payload's own incremental encoder, and an empty text read gives b'' (the write loop ends)")
+            else:
+                chk.violation("C04.textenc", r, K.short(r, 70), "self._encoder.encode(chunk) if chunk else b''",
+                              f"TextIOPayload.{mname}() encodes every block on its own with str.encode(): with utf-16 / utf-32 / utf-8-sig each block starts with a byte-order mark and `''.encode('utf-16')` is a BOM, not b'' - `while chunk:` in write_with_length() never sees the end of the file (an endless chunked body), and with a known size the extra BOMs push the tail of the text past Content-Length")
+    chk.expect_count("C04.textenc", nread, 2, "encoding returns of TextIOPayload read helpers")
+    mk = [a for m in tp.methods.values() for a in ast.walk(m.node) if isinstance(a, ast.Assign) and norm.raw(a.targets[0]) == "self._encoder"]
+    if mk and all(fn_.qualname.endswith("_read_and_available_len") for fn_ in [tp.methods[n_] for n_ in tp.methods if any(a in list(ast.walk(tp.methods[n_].node)) for a in mk)]):
+        chk.ok("C04.textenc", mk[0], "one incremental encoder per write: it is created where a write starts (_read_and_available_len), not per block")
+    elif nread:
+        chk.violation("C04.textenc", tp, "self._encoder = codecs.getincrementalencoder(...)()", "in _read_and_available_len()", "the encoder state does not span the blocks of one write")
+    # ---- C04.compress.order: concurrent writers of a compressed stream reach the wire in the order they were compressed ------------------------------------
+    sw = repo.cls(HW, "StreamWriter")
+    nc = 0
+    for mname, m in sw.methods.items():
+        g = None
+        for a in [a for a in prog.awaits_in(m.node) if isinstance(a.value, ast.Call) and norm.raw(a.value.func) == "self._compress.compress"]:
+            nc += 1
+            locks = [w for w in prog.enclosing(a, (ast.AsyncWith,)) if any("lock" in norm.raw(it.context_expr).lower() for it in w.items)]
+            if not locks:
+                chk.violation("C04.compress.order", a, K.short(a, 60), "async with self._compress_lock:",
+                              f"StreamWriter.{mname}() awaits the compressor (the executor, above 4 KiB) with nothing serialising writers: a small write() issued meanwhile is compressed and written first - deflate blocks on the wire out of order, the peer's inflater fails with `incorrect header check`")
+                continue
+            g = g or cfg_of(m.node)
+            after = [n for n in g.nodes if n.kind in ("stmt", "test") and getattr(n.ast, "lineno", 0) > getattr(locks[-1], "end_lineno", 0)]
+            wr = [n for n in after if any(isinstance(c, ast.Call) and norm.raw(c.func) in ("self._write", "self._send_headers_with_payload", "self._writelines") for c in ast.walk(n.ast))]
+            aw = [n for n in after if any(isinstance(x, ast.Await) for x in ast.walk(n.ast)) and n not in wr]
+            first = [n for n in g.nodes if n.kind in ("stmt", "test") and getattr(n.ast, "lineno", 0) == min((getattr(x.ast, "lineno", 10**9) for x in after), default=0)]
+            p = g.find_path(first, lambda n: n in wr, lambda n: False, EXPLICIT) if first and wr else None
+            bad = [n for n in (p or []) if n in aw] + [n for n in first if n in aw]
+            if wr and not bad:
+                chk.ok("C04.compress.order", a, f"StreamWriter.{mname}(): compress() under the writer's lock, and nothing is awaited between leaving the lock and the transport write")
+            else:
+                chk.violation("C04.compress.order", a, K.short(a, 60), "no await between the end of `async with self._compress_lock` and self._write(...)",
+                              f"StreamWriter.{mname}() suspends between compressing a block and writing it: another writer's block can overtake it")
+    chk.expect_count("C04.compress.order", nc, 2, "awaits of the stream compressor in StreamWriter")
+    # ---- C04.te.client10: the client never frames an HTTP/1.0 request with chunked (sibling of the server's refusal) ------------------------------------------
+    ute = repo.func(REQ, "ClientRequest._update_transfer_encoding")
+    refs = [r for r, _c in K.raises_in(ute) if PC.has_lit(PC.pc(r), "self.chunked", True) is not None and any("HttpVersion1" in l.text and "self.version" in l.text for l in PC.units(PC.pc(r)))]
+    if refs:
+        chk.ok("C04.te.client10", refs[0], "_update_transfer_encoding(): chunked framing on a request below HTTP/1.1 is refused before anything is sent")
+    else:
+        chk.violation("C04.te.client10", ute, "self.headers[hdrs.TRANSFER_ENCODING] = 'chunked'", "if self.chunked and self.version < HttpVersion11: raise ValueError(...)",
+                      "ClientSession(version=HttpVersion10) with a body of unknown size, compress= or chunked=True sends `Transfer-Encoding: chunked` to a recipient that does not know the framing: an HTTP/1.0 server answers after reading 0 body bytes and the upload is silently lost (the server side refuses the same combination for responses)")
 
 
 def hunt3_rules(chk, repo):
